@@ -36,7 +36,7 @@ ANCHORS = [
     ('pjrpc/server/dispatcher.py', 'Dispatcher._handle_request'), ('pjrpc/server/dispatcher.py', 'AsyncDispatcher._handle_request'),
     ('pjrpc/server/dispatcher.py', 'Dispatcher.dispatch'), ('pjrpc/server/dispatcher.py', 'AsyncDispatcher.dispatch'),
 ]
-MW_KINDS = ['P', 'S', 'Q', 'R']
+MW_KINDS = ['P', 'S', 'Q', 'R', 'A']     # A = answers every request itself, notifications included
 TABLES = ['none', 'generic', 'per-code', 'both', 'two-per-key', 'replace-generic', 'replace-per-code', 'annotate']
 FLOORS = {'*': {**{f'mw:{k}:depth{d}': 20 for k in MW_KINDS for d in range(3)},
                 **{f'table:{t}:failing': 20 for t in TABLES if t != 'none'},
@@ -65,6 +65,8 @@ def make_mw(kind, idx, flavour):
         return request
 
     def short(request):
+        if kind == 'A':
+            return v20.Response(id=request.id, result=['answered', idx])       # "whatever the chain returns is what is sent"
         return UNSET if request.id is None else v20.Response(id=request.id, result=['short', idx])
 
     def rewrite_response(resp):
@@ -75,7 +77,7 @@ def make_mw(kind, idx, flavour):
     if flavour == 'sync':
         def mw(request, context, handler):
             pre(request, context)
-            if kind == 'S':
+            if kind in ('S', 'A'):
                 out = short(request)
             else:
                 out = rewrite_response(handler(rewrite_request(request), context))
@@ -89,7 +91,7 @@ def make_mw(kind, idx, flavour):
         pre(request, context)
         if suspend:
             await asyncio.sleep(0)
-        if kind == 'S':
+        if kind in ('S', 'A'):
             out = short(request)
         else:
             out = rewrite_response(await handler(rewrite_request(request), context))
@@ -187,13 +189,16 @@ def expected_element(el, stack, table, ctx_token):
     short_at = None
     for i, k in enumerate(stack):
         events.append(('enter', i, t))
-        if k == 'S':
+        if k in ('S', 'A'):
             short_at = i
             break
         if k == 'Q' and cur['method'] == 'ok' and isinstance(cur.get('params'), list) and cur['params']:
             cur = dict(cur, params=[cur['params'][0], f'q{i}'])
     executions = []
-    if short_at is not None:
+    if short_at is not None and stack[short_at] == 'A':
+        resp = {'jsonrpc': '2.0', 'id': el.get('id'), 'result': ['answered', short_at]}
+        depth = short_at
+    elif short_at is not None:
         resp = None if is_notif else {'jsonrpc': '2.0', 'id': el['id'], 'result': ['short', short_at]}
         depth = short_at
     else:
@@ -275,7 +280,7 @@ def run_case(ctx, stack, table, doc_name, flavour):
         if any(e[0] == 'handler' for e in ev):
             any_failing = True
             ctx.hit('handler-events')
-        if 'S' in stack:
+        if 'S' in stack or 'A' in stack:
             ctx.hit('short-circuit')
     if any_failing:
         ctx.hit(f'table:{table}:failing')
